@@ -1,7 +1,248 @@
 package main
 
-import "go/ast"
+import (
+	"go/ast"
+	"go/token"
+	"go/types"
+)
+
+// T9: data-access annotations for the happens-before race detector. For every statement, the
+// accesses to mutable fields of a *Device that occur in the statement itself (for compound
+// statements: in its header expressions) are announced by vsched.R / vsched.W calls inserted in
+// front of it (and at the top of loop bodies for loop headers). Annotation calls are not
+// scheduling points; a thread runs atomically between synchronisation operations, so announcing
+// an access at the start of its statement is equivalent to announcing it at the access.
+
+type access struct {
+	recv  ast.Expr
+	field string
+	write bool
+}
+
+func (r *rewriter) deviceField(e ast.Expr) (ast.Expr, string, bool) {
+	se, ok := e.(*ast.SelectorExpr)
+	if !ok {
+		return nil, "", false
+	}
+	sel := r.info.Selections[se]
+	if sel == nil || sel.Kind() != types.FieldVal {
+		return nil, "", false
+	}
+	t := r.info.TypeOf(se.X)
+	if t == nil {
+		return nil, "", false
+	}
+	if p, ok := t.(*types.Pointer); ok {
+		t = p.Elem()
+	}
+	n, ok := t.(*types.Named)
+	if !ok || n.Obj().Name() != "Device" || n.Obj().Pkg() == nil || n.Obj().Pkg().Name() != "device" {
+		return nil, "", false
+	}
+	switch sel.Obj().Type().Underlying().(type) {
+	case *types.Map, *types.Slice, *types.Basic, *types.Array:
+	default:
+		return nil, "", false // channels, mutex pointers, function tables, embedded configuration structs
+	}
+	if _, isIdent := se.X.(*ast.Ident); !isIdent {
+		return nil, "", false
+	}
+	return se.X, se.Sel.Name, true
+}
+
+// rootSelector: d.f in d.f, d.f[k], d.f[k][j]
+func rootSelector(e ast.Expr) ast.Expr {
+	for {
+		switch v := e.(type) {
+		case *ast.IndexExpr:
+			e = v.X
+		case *ast.ParenExpr:
+			e = v.X
+		case *ast.StarExpr:
+			e = v.X
+		default:
+			return e
+		}
+	}
+}
+
+func (r *rewriter) collect(n ast.Node, acc *[]access, writes map[ast.Expr]bool) {
+	if n == nil {
+		return
+	}
+	ast.Inspect(n, func(x ast.Node) bool {
+		switch v := x.(type) {
+		case *ast.FuncLit:
+			return false // its body is a separate block
+		case *ast.SelectorExpr:
+			if recv, f, ok := r.deviceField(v); ok {
+				*acc = append(*acc, access{recv, f, writes[v]})
+			}
+		}
+		return true
+	})
+}
+
+func (r *rewriter) writesOf(s ast.Stmt) map[ast.Expr]bool {
+	w := map[ast.Expr]bool{}
+	mark := func(e ast.Expr) {
+		if se, ok := rootSelector(e).(*ast.SelectorExpr); ok {
+			w[se] = true
+		}
+	}
+	switch v := s.(type) {
+	case *ast.AssignStmt:
+		for _, l := range v.Lhs {
+			mark(l)
+		}
+	case *ast.IncDecStmt:
+		mark(v.X)
+	case *ast.RangeStmt:
+		if v.Tok == token.ASSIGN {
+			if v.Key != nil {
+				mark(v.Key)
+			}
+			if v.Value != nil {
+				mark(v.Value)
+			}
+		}
+	}
+	ast.Inspect(s, func(x ast.Node) bool {
+		if _, ok := x.(*ast.FuncLit); ok {
+			return false
+		}
+		if c, ok := x.(*ast.CallExpr); ok && r.isBuiltin(c.Fun, "delete") && len(c.Args) > 0 {
+			mark(c.Args[0])
+		}
+		return true
+	})
+	return w
+}
+
+func annotation(a access) ast.Stmt {
+	fn := "R"
+	if a.write {
+		fn = "W"
+	}
+	return &ast.ExprStmt{X: call(sel(vs, fn), a.recv, &ast.BasicLit{Kind: token.STRING, Value: `"` + a.field + `"`})}
+}
+
+func dedup(as []access) []access {
+	seen := map[string]int{}
+	var out []access
+	for _, a := range as {
+		id, _ := a.recv.(*ast.Ident)
+		k := id.Name + "." + a.field
+		if i, ok := seen[k]; ok {
+			if a.write {
+				out[i].write = true
+			}
+			continue
+		}
+		seen[k] = len(out)
+		out = append(out, a)
+	}
+	return out
+}
+
+func (r *rewriter) funcLits(n ast.Node) {
+	if n == nil {
+		return
+	}
+	ast.Inspect(n, func(x ast.Node) bool {
+		if fl, ok := x.(*ast.FuncLit); ok {
+			fl.Body.List = r.annotateList(fl.Body.List)
+			return false
+		}
+		return true
+	})
+}
+
+func (r *rewriter) annotateList(list []ast.Stmt) []ast.Stmt {
+	var out []ast.Stmt
+	for _, s := range list {
+		var acc []access
+		inner := s
+		if l, ok := s.(*ast.LabeledStmt); ok {
+			inner = l.Stmt
+		}
+		w := r.writesOf(inner)
+		switch v := inner.(type) {
+		case *ast.BlockStmt:
+			v.List = r.annotateList(v.List)
+		case *ast.IfStmt:
+			r.collect(v.Init, &acc, w)
+			r.collect(v.Cond, &acc, w)
+			r.funcLits(v.Init)
+			r.funcLits(v.Cond)
+			v.Body.List = r.annotateList(v.Body.List)
+			if v.Else != nil {
+				wrapped := r.annotateList([]ast.Stmt{v.Else})
+				if len(wrapped) == 1 {
+					v.Else = wrapped[0]
+				} else {
+					v.Else = &ast.BlockStmt{List: wrapped}
+				}
+			}
+		case *ast.ForStmt:
+			var hdr []access
+			r.collect(v.Init, &acc, w)
+			r.collect(v.Cond, &hdr, w)
+			r.collect(v.Post, &hdr, w)
+			acc = append(acc, hdr...)
+			v.Body.List = r.annotateList(v.Body.List)
+			var top []ast.Stmt
+			for _, a := range dedup(hdr) {
+				top = append(top, annotation(a))
+			}
+			v.Body.List = append(top, v.Body.List...)
+		case *ast.RangeStmt:
+			var hdr []access
+			r.collect(v.X, &hdr, w)
+			acc = append(acc, hdr...)
+			v.Body.List = r.annotateList(v.Body.List)
+			var top []ast.Stmt
+			for _, a := range dedup(hdr) { // every iteration reads the collection
+				top = append(top, annotation(a))
+			}
+			v.Body.List = append(top, v.Body.List...)
+		case *ast.SwitchStmt:
+			r.collect(v.Init, &acc, w)
+			r.collect(v.Tag, &acc, w)
+			for _, c := range v.Body.List {
+				cc := c.(*ast.CaseClause)
+				for _, e := range cc.List {
+					r.collect(e, &acc, w)
+				}
+				cc.Body = r.annotateList(cc.Body)
+			}
+		case *ast.TypeSwitchStmt:
+			for _, c := range v.Body.List {
+				cc := c.(*ast.CaseClause)
+				cc.Body = r.annotateList(cc.Body)
+			}
+		case *ast.SelectStmt:
+			for _, c := range v.Body.List {
+				cc := c.(*ast.CommClause)
+				cc.Body = r.annotateList(cc.Body)
+			}
+		default:
+			r.collect(inner, &acc, w)
+			r.funcLits(inner)
+		}
+		for _, a := range dedup(acc) {
+			out = append(out, annotation(a))
+		}
+		out = append(out, s)
+	}
+	return out
+}
 
 // annotateAccesses inserts vsched.R / vsched.W calls for accesses to mutable Device fields (T9).
-// Implemented in a later step; until then a no-op.
-func (r *rewriter) annotateAccesses(f *ast.File) {}
+func (r *rewriter) annotateAccesses(f *ast.File) {
+	for _, d := range f.Decls {
+		if fd, ok := d.(*ast.FuncDecl); ok && fd.Body != nil {
+			fd.Body.List = r.annotateList(fd.Body.List)
+		}
+	}
+}
